@@ -34,8 +34,13 @@ def gen_random(R, count, nmax):
             I = gslib.rand_instance(R.rng, n, m, pr, ph)
             if R.rng.random() < 0.1 and n > 1:      # an all-NaN row on one side
                 I["R"][R.rng.randrange(n)] = [None] * m
+        if R.rng.random() < 0.05:
+            # "unlimited" capacity: the largest 64-bit integer (sys.maxsize)
+            I["c"][R.rng.randrange(len(I["c"]))] = 2 ** 63 - 1
         if gslib.constructible(I):
             insts.append(I)
+    # a market with more than 256 residents in which nearly everybody applies to the same small hospital first
+    insts.append(gslib.popular_market(R.rng, R.rng.randint(258, 400), R.rng.randint(2, 3)))
     for t in range(max(1, count // 400)):      # large markets: a hospital with >= 128 seats and more applicants than that
         n = R.rng.randint(135, 170)
         I = gslib.rand_instance(R.rng, n, 2, 0.0, 0.0)
@@ -93,7 +98,7 @@ def judge(R, inst, oriented, zero, res, lean_ans, tag):
     pairs = res["pairs"]
     match = [(a - fixer, b - fixer) for a, b in pairs]
     errs = gslib.check_matching(inst, match)
-    model = gslib.parse_pairs(lean_ans)
+    model = gslib.parse_pairs(lean_ans) if lean_ans is not None else None
     nontriv = gslib.has_rejection(inst, match)
     R.case(nontrivial_key=(json.dumps(inst), oriented) if nontriv else None,
            sample={"instance": inst, "config": cfg, "impl_pairs": pairs, "model": lean_ans} if nontriv else None)
@@ -105,13 +110,16 @@ def judge(R, inst, oriented, zero, res, lean_ans, tag):
         def fails(I2):
             r2 = gslib.call_gs(I2, oriented, True)
             return bool(gslib.check_matching(I2, [(a, b) for a, b in r2]))
-        small = gslib.shrink(inst, fails)
+        small = gslib.shrink(inst, fails) if inst["n"] * inst["m"] <= 400 else inst
         try:
             out_small = gslib.call_gs(small, oriented, zero)
         except Exception as e:  # noqa
             out_small = repr(e)
         R.violation("property_violation", "feasible and no blocking pair", ENTRY, small, impl_output=out_small,
                     model_output=lean_ans, oracle=errs, config=cfg, minimised_from=inst)
+        return
+    if lean_ans is None:
+        R.count("judged_by_the_direct_oracle_only(instance_too_large_for_the_compiled_model)")
         return
     if model is None or sorted(pairs) != model:
         R.corr_break("gs pair set = model pair set (galeShapley)", ENTRY, inst, pairs, lean_ans, cfg)
@@ -121,7 +129,8 @@ def run_batch(R, insts, oriented, zero, tag, deadline):
     cases = [{"insts": ch, "oriented": oriented, "zero_indexed": zero} for ch in chunks(insts, 200)]
     results = pmap("c01", "impl_batch", cases, deadline=deadline)
     fixer = 0 if zero else 1
-    lines = [gslib.lean_line(I, oriented, fixer) for I in insts]
+    big = [I["n"] * I["m"] > gslib.MODEL_MAX_CELLS for I in insts]
+    lines = [gslib.lean_line(I, oriented, fixer) if not b else "gs 1 0 1 1 1 1 1" for I, b in zip(insts, big)]
     # the faithful mirror of the branch (same state variables, CPython's heapq, same output ORDER): C01_gs*Mirror_refines.
     # Large markets are skipped (the mirror is not tuned for them); the order of the returned pairs is not part of the property,
     # so this comparison is model coverage (glue), while the pair SET against the proved model is the verdict above.
@@ -140,7 +149,7 @@ def run_batch(R, insts, oriented, zero, tag, deadline):
         else:
             rs = res["results"]
         for I, r in zip(case["insts"], rs):
-            judge(R, I, oriented, zero, r, answers[k], tag)
+            judge(R, I, oriented, zero, r, answers[k] if not big[k] else None, tag)
             if mirror_ans[k] is not None and isinstance(r, dict) and "pairs" in r:
                 exp = " ".join(["ok", str(len(r["pairs"]))] + [str(x - fixer) for p in r["pairs"] for x in p])
                 R.glue("mirror:GaleShapley.scf ordered pair list (" + ("resident" if oriented else "hospital") + "-oriented)", exp == mirror_ans[k],
@@ -164,6 +173,8 @@ def run(R):
         for zero in (True, False):
             insts = gen_random(R, count, nmax)
             run_batch(R, insts, oriented, zero, "random", 60.0)
+        # one run of more than ten thousand rounds
+        run_batch(R, [gslib.long_run(R.rng.randint(10500, 12500), oriented)[0]], oriented, True, "long_run", 120.0)
     if R.thorough:
         R.exhaustive = True
         for oriented in (True, False):
